@@ -3,7 +3,7 @@
 (* Trace validation for C06: real packets against a real router whose      *)
 (* configuration went through the real parser.                              *)
 (*  {"ev":"in","svcs":[..],"isolate":B,"who":S,"proto":N,"dport":N,          *)
-(*   "variant":V,"flow":B,"totun":B,"panic":B}                               *)
+(*   "variant":V,"flow":B,"friends":"both"|"none","totun":B,"panic":B}                               *)
 (*  {"ev":"out","isolate":B,"srcisme":B,"dst":S,"proto":N,"tomesh":B}        *)
 (*  {"ev":"policy","svcs":[..],"who":S,"proto":N,"port":N,"allowed":B}       *)
 (*       return value of CheckInboundTrafficPolicy                           *)
@@ -16,9 +16,9 @@ Ev == Trace[l]
 TraceInit == l = 1 /\ Init
 
 InOK == /\ ~Ev.panic
-        /\ Ev.totun <=> InboundToTun(Ev.svcs, Ev.isolate, Ev.who, Ev.proto, Ev.dport, Ev.variant, Ev.flow)
+        /\ Ev.totun <=> InboundToTun(Ev.svcs, Ev.isolate, Ev.who, Ev.proto, Ev.dport, Ev.variant, Ev.flow, Ev.friends)
 OutOK == Ev.tomesh <=> OutboundToMesh(Ev.isolate, Ev.srcisme, Ev.dst)
-PolicyOK == Ev.allowed <=> PolicyAdmits(Ev.svcs, Ev.proto, Ev.port, Ev.who)
+PolicyOK == Ev.allowed <=> PolicyAdmits(Ev.svcs, Ev.proto, Ev.port, Ev.who, Ev.friends)
 
 TraceNext == /\ l <= Len(Trace) /\ l' = l + 1 /\ UNCHANGED vars
              /\ \/ (Ev.ev = "in" /\ InOK = TRUE)
